@@ -170,14 +170,14 @@ Fixpoint int_digits (s : str) (acc : Z) (after_digit : bool) : option Z :=
               end
   end.
 (* int(s) for ASCII text: ValueError unless [ws] [+-] digits(_digits)* [ws] *)
+Definition int_signed (t : str) : option Z :=
+  match t with
+  | "-"%char :: d => option_map Z.opp (int_digits d 0 false)
+  | "+"%char :: d => int_digits d 0 false
+  | _ => int_digits t 0 false
+  end.
 Definition py_int (s : str) : pyres Z :=
-  let t := strip_by is_cspace s in
-  let r := match t with
-           | "-"%char :: d => option_map Z.opp (int_digits d 0 false)
-           | "+"%char :: d => int_digits d 0 false
-           | _ => int_digits t 0 false
-           end in
-  match r with Some v => Ok v | None => Err ValueError end.
+  match int_signed (strip_by is_cspace s) with Some v => Ok v | None => Err ValueError end.
 
 (* float(s): the value of a decimal literal is kept exactly as mantissa * 10^exponent *)
 Inductive fval := FDec (m e : Z) | FInf (neg : bool) | FNan.
